@@ -71,7 +71,40 @@ def layout_scenarios(logs, rnd, per_log, family, isos):
 FAULTS = [("notleader", {"kind": "err", "code": 6}), ("lna", {"kind": "err", "code": 5}), ("unknown", {"kind": "err", "code": 3}),
           ("replica", {"kind": "err", "code": 9}), ("corrupt", {"kind": "err", "code": 2}), ("outofrange", {"kind": "err", "code": 1}),
           ("silence", {"kind": "silence"}), ("drop", {"kind": "drop"}), ("throttled", {"kind": "throttled"}),
-          ("missing", {"kind": "missing"}), ("move", {"kind": "ok", "moveTo": 2})]
+          ("missing", {"kind": "missing"}), ("move", {"kind": "ok", "moveTo": 2}), ("throttled_data", {"kind": "throttled_data"})]
+
+
+def quota_scenarios(logs, rnd, nlogs, family="quota"):
+    """a broker that enforces a quota: EVERY fetch response of partition 0 carries a throttle time together with its data"""
+    out = []
+    for i, log in enumerate(logs[:nlogs]):
+        lg = add_codec(log, rnd)
+        ver = pick_version(log, rnd)
+        if ver == "0.8.2.0":
+            ver = "0.10.0.0" if not ({b["fmt"] for b in log} & {"v2"}) else ver
+        cfg = dict(version=ver, iso="ru", fetchDefault=rnd.choice([90, 260, 1 << 20]), chanBuf=rnd.choice([0, 1]), leaders=[1, 1], nbrokers=1)
+        out.append({"name": "%s-%d" % (family, i), "family": family, "cfg": cfg, "logs": {"0": lg, "1": add_codec(log, rnd)},
+                    "fetchPlans": {"0:*": {"kind": "throttled_data"}},
+                    "consume": [{"part": 0, "start": 0}, {"part": 1, "start": 0}], "expectAll": {"0": True, "1": True}, "steps": []})
+    return out
+
+
+def error_code_scenarios(logs, rnd, family="fetch-errorcodes"):
+    """every Kafka error code in a fetch block (inputs quantifier): only OFFSET_OUT_OF_RANGE ends the partition consumer; after any
+    other code - silently redispatched or reported to the application - the rest of the log must still be delivered"""
+    out = []
+    codes = [c for c in list(range(-1, 90)) if c not in (0, 1)]
+    for j, code in enumerate(codes):
+        log = logs[j % len(logs)]
+        lg = add_codec(log, rnd)
+        # (the error comes with the first or - with a small fetch size - the second fetch: part of the log is still to be delivered)
+        k = 1 + j % 2
+        cfg = dict(version=pick_version(log, rnd), iso="ru", fetchDefault=70 if k == 2 else rnd.choice([90, 1 << 20]), chanBuf=rnd.choice([0, 1]),
+                   leaders=[1, 1], nbrokers=2, readTimeoutMs=120)
+        out.append({"name": "%s-%d" % (family, code), "family": family, "cfg": cfg, "logs": {"0": lg, "1": add_codec(log, rnd)},
+                    "fetchPlans": {"0:%d" % k: {"kind": "err", "code": code}},
+                    "consume": [{"part": 0, "start": 0}, {"part": 1, "start": 0}], "expectAll": {"0": True, "1": True}, "steps": []})
+    return out
 
 
 def fault_scenarios(logs, rnd, nlogs, family="faults"):
@@ -81,7 +114,7 @@ def fault_scenarios(logs, rnd, nlogs, family="faults"):
             for k in (1, 2):
                 lg = add_codec(log, rnd)
                 ver = pick_version(log, rnd)
-                if fname == "throttled" and ver == "0.8.2.0":
+                if fname in ("throttled", "throttled_data") and ver == "0.8.2.0":
                     ver = "0.10.0.0" if not ({b["fmt"] for b in log} & {"v2"}) else ver
                 cfg = dict(version=ver, iso="ru", fetchDefault=rnd.choice([90, 1 << 20]), chanBuf=rnd.choice([0, 1]),
                            leaders=[1, 1], nbrokers=2, readTimeoutMs=120)
